@@ -39,6 +39,8 @@ type Weights struct {
 	Bidders int
 	// RoundsPool overrides the pool the maximum number of extended rounds is drawn from.
 	RoundsPool []int
+	// Hooks: the history starts with an OpHooks operation (C17 history part).
+	Hooks bool
 }
 
 // DefaultWeights is the general mix.
@@ -186,6 +188,9 @@ const OpSetBalance = "setBalance"
 // Prologue draws the "genesis" of a case: parameters and, sometimes, poor accounts.
 func (g *Gen) Prologue(t *rapid.T) []Op {
 	var ops []Op
+	if g.W.Hooks {
+		ops = append(ops, genHooksOp(t))
+	}
 	// parameters
 	fee := pick(t, "creation-fee", []string{"", "100000000stake", "7stake", "3paya,5stake", "2paya"})
 	bidFee := pick(t, "bid-fee", []string{"", "", "1stake", "2paya", "1payb,4stake"})
@@ -531,6 +536,10 @@ func (g *Gen) perturbCreate(t *rapid.T, w *World, s *Snap, o *Op) {
 	n := rapid.IntRange(1, 2).Draw(t, "n-perturb")
 	for i := 0; i < n; i++ {
 		k := uni(t, "perturb-create-kind", 18)
+		if pct(t, 50, "perturb-create-near-valid") {
+			// inputs one step away from valid ones: boundary instants and weights off by 1e-18
+			k = pick(t, "perturb-create-near-kind", []int{6, 7, 8, 8, 9, 10, 16, 17})
+		}
 		g.label(fmt.Sprintf("perturb:create-%d", k))
 		switch k {
 		case 0:
@@ -976,7 +985,11 @@ func (g *Gen) genPlaceBid(t *rapid.T, w *World, s *Snap) Op {
 func (g *Gen) perturbBid(t *rapid.T, w *World, s *Snap, a *Auc, o *Op) {
 	n := rapid.IntRange(1, 2).Draw(t, "n-perturb")
 	for i := 0; i < n; i++ {
-		k := uni(t, "perturb-bid-kind", 13)
+		k := uni(t, "perturb-bid-kind", 14)
+		if pct(t, 50, "perturb-bid-near-valid") {
+			// well-formed bids that miss exactly one acceptance rule
+			k = pick(t, "perturb-bid-near-kind", []int{6, 7, 8, 11, 12, 13, 13})
+		}
 		g.label(fmt.Sprintf("perturb:bid-%d", k))
 		switch k {
 		case 0:
@@ -1020,6 +1033,12 @@ func (g *Gen) perturbBid(t *rapid.T, w *World, s *Snap, a *Auc, o *Op) {
 		case 12:
 			if !a.IsBatch() && o.CoinDenom == a.SellDenom {
 				o.CoinAmount = badd(a.Remaining, bigOne).String()
+			}
+		case 13: // a price far from the one generated (for a fixed price auction: not the start price)
+			f := pick(t, "price-factor", [][2]int64{{2, 1}, {10, 1}, {3, 2}, {1, 2}, {1, 10}})
+			m := floorDiv(bmul(DecM(dec(o.Price)), bi(f[0])), bi(f[1]))
+			if m.Sign() > 0 {
+				o.Price = mstr(m)
 			}
 		}
 	}
